@@ -44,7 +44,17 @@ func (f *dutyFan) recv(sub int, duty core.Duty, set core.DutyDefinitionSet) {
 	f.dmu.Unlock()
 }
 
-func (f *dutyFan) count() int { return len(f.fan.snapshot()) }
+// count is the number of deliveries fully recorded (grouped by duty).
+func (f *dutyFan) count() int {
+	f.dmu.Lock()
+	defer f.dmu.Unlock()
+	n := 0
+	for _, l := range f.byDuty {
+		n += len(l)
+	}
+
+	return n
+}
 
 func (f *dutyFan) of(duty core.Duty) []*delivery {
 	f.dmu.Lock()
